@@ -358,7 +358,10 @@ func genRespSpec(rng *PRNG, name string) respSpec {
 		var d map[string]any
 		json.Unmarshal(inlinedSpec(bs, false), &d)
 		delete(d, "components")
-		bare := rng.Bool()
+		// (only the bare form: a fully inlined copy with two anonymous list-of-object bodies is an
+		// instance of KF-C01-nameCollision, helper type `Item` hoisted twice, not a matter of this check)
+		bare := true
+		rng.Bool()
 		if bare {
 			// ... and nothing is left that would need a components file at all: the same operations and
 			// statuses, every response without headers and body, no JSON request bodies
